@@ -34,7 +34,7 @@ fn acts() -> Vec<MAct> {
 fn case_acts() -> Vec<MAct> {
     vec![
         mcmd(0, &["multi"]), mcmd(0, &["Exec"]), mcmd(0, &["discard"]), mcmd(0, &["MULTI"]), mcmd(0, &["EXEC"]),
-        mcmd(0, &["select", "1"]), mcmd(0, &["Select", "2"]), mcmd(0, &["SELECT", "0"]), mcmd(0, &["set", "a", "1"]), mcmd(0, &["Incr", "a"]), mcmd(0, &["get", "a"]),
+        mcmd(0, &["Watch", "a"]), mcmd(0, &["select", "1"]), mcmd(0, &["Select", "2"]), mcmd(0, &["SELECT", "0"]), mcmd(0, &["set", "a", "1"]), mcmd(0, &["Incr", "a"]), mcmd(0, &["get", "a"]),
     ]
 }
 
